@@ -93,7 +93,9 @@ type createRow struct {
 
 type op struct {
 	// updates-struct | updates-map | update | updatecolumn | updatecolumns-struct | updatecolumns-map |
-	// save | create | create-slice | create-batches | create-map | create-maps
+	// save | create | create-slice | create-batches | create-map | create-maps | save-slice |
+	// firstorcreate-map | firstorcreate-struct: [Model(&T{}).]Where(cond).Assign(map|struct).FirstOrCreate(&dest),
+	// generated with at least one row matching cond (the found record gets the assigned values)
 	Kind string
 	// struct updates: "model+value" Model(&m{ID}).Updates(V) | "model+pointer" Model(&m{ID}).Updates(&V) |
 	// "pointer" Updates(&V{ID}) | "value" Updates(V{ID}) | "same" Model(&V{ID}).Updates(&V) |
@@ -103,6 +105,10 @@ type op struct {
 	Other    []string
 	PK       int64 // primary key of the model value (0 = not set)
 	PK2      cell  // second member of a composite key (nil = the model has none)
+	// ModelKeys: the model value is a slice of key structs, Model(&[]T{{ID, Rev}, ...}) (update paths)
+	ModelKeys []rowKey
+	// firstorcreate-*: the chain names its model explicitly, Model(&T{}) with a zero key
+	ExplicitModel bool
 	Cond     *cond
 	Select   []string // nil = no Select call
 	Omit     []string
@@ -148,7 +154,12 @@ func (o *op) render(m *model) string {
 		fmt.Fprintf(&b, " value-type-tags%q", o.Other[1:])
 	}
 	if !o.isCreate() {
-		if o.PK2 != nil {
+		if o.ExplicitModel {
+			b.WriteString(" Model(zero)")
+		}
+		if o.ModelKeys != nil {
+			fmt.Fprintf(&b, " keys=%v where(%s)", o.ModelKeys, o.Cond.render(m))
+		} else if o.PK2 != nil {
 			fmt.Fprintf(&b, " key=(%d,%s) where(%s)", o.PK, cellStr(o.PK2), o.Cond.render(m))
 		} else {
 			fmt.Fprintf(&b, " key=%d where(%s)", o.PK, o.Cond.render(m))
@@ -305,9 +316,10 @@ func predict(m *model, before *table, o *op) prediction {
 			}
 		}
 	}
+	entries := o.Map
 	mapWrites := func() {
 		given := map[int]bool{}
-		for _, e := range o.Map {
+		for _, e := range entries {
 			given[e.F] = true
 			f := m.Fields[e.F]
 			known, _, upd := f.perms()
@@ -329,7 +341,19 @@ func predict(m *model, before *table, o *op) prediction {
 	switch o.Kind {
 	case "updates-struct", "updatecolumns-struct":
 		structWrites(false)
-	case "updates-map", "updatecolumns-map", "update", "updatecolumn":
+	case "updates-map", "updatecolumns-map", "update", "updatecolumn", "firstorcreate-map":
+		mapWrites()
+	case "firstorcreate-struct":
+		// Assign(struct): its non-zero fields are the assigned attributes
+		idx := make([]int, 0, len(o.Struct))
+		for i := range o.Struct {
+			idx = append(idx, i)
+		}
+		sort.Ints(idx)
+		entries = nil
+		for _, i := range idx {
+			entries = append(entries, kv{Key: m.Fields[i].Name, F: i, V: o.Struct[i]})
+		}
 		mapWrites()
 	case "save":
 		if m.NK == 1 && o.PK == 0 {
@@ -387,8 +411,28 @@ func predict(m *model, before *table, o *op) prediction {
 	for _, k := range key {
 		allZero = allZero && isZeroCell(k)
 	}
+	firstOnly := strings.HasPrefix(o.Kind, "firstorcreate")
 	for _, id := range before.ids() {
+		if firstOnly && p.targeted > 0 {
+			break // FirstOrCreate: only the found record (the first match in key order) is updated
+		}
 		row := before.rows[id]
+		if o.ModelKeys != nil {
+			// a slice of key structs: exactly the rows whose complete key is the key of an element
+			hit := false
+			for _, k := range o.ModelKeys {
+				hit = hit || id == m.keyOf(k.ID, k.Rev)
+			}
+			if !hit || !o.Cond.matches(row) {
+				continue
+			}
+			p.targeted++
+			for i, g := range writes {
+				p.want.rows[id][i] = evalWrite(row, g)
+				p.written++
+			}
+			continue
+		}
 		exact, loose := true, true
 		for j, k := range key {
 			eq := cellEq(row[j], k)
